@@ -26,12 +26,12 @@ def P4q(v):
     return "(%s, %s, %s, %s)" % tuple(Rq(x) for x in v)
 
 
-def build(rnd, J_list=None, nres=None, beyond=False):
+def build(rnd, J_list=None, nres=None, beyond=False, pairs_forced=None):
     mf = {k: rnd.uniform(0.1, 0.5) for k in ampkit.FINALS}
     M0 = sum(mf.values()) + rnd.uniform(0.8, 2.0)
     pairs = list(ampkit.PAIRS)
     nres = nres or rnd.choice([1, 2, 3])
-    chosen = rnd.sample(pairs, nres)
+    chosen = list(pairs_forced) if pairs_forced else rnd.sample(pairs, nres)
     res = {}
     for n, pr in enumerate(chosen):
         i, j, k = ampkit.PAIRS[pr]
@@ -227,7 +227,9 @@ def run(ctx):
             ctx.notes.append("history model J_A=%s not loadable: %r" % (ptop, e))
         run_config(ctx, rnd, "h%d" % hn, M0, mf, res, 2, cases, vcases=vcases)
     for n, (Jl, nres, beyond) in enumerate(plans):
-        M0, mf, res = build(rnd, Jl, nres, beyond)
+        # the single-resonance configs of every J reuse ONE slot name (R_BC): models with equal particle / decay names and
+        # different spins follow each other in this process (anything cached by name would leak from one to the next)
+        M0, mf, res = build(rnd, Jl, nres, beyond, pairs_forced=(["R_BC"] if (Jl is not None and len(Jl) == 1 and not beyond) else None))
         cfg = run_config(ctx, rnd, "g%d" % n, M0, mf, res, 3 if quick else 5, cases, vcases=(vcases if (n < 5 or not quick and n % 4 == 0) else None))
         if n == 0:
             ctx.sample({"config": cfg})
